@@ -231,6 +231,7 @@ def _verdict(pid, mod, tier, seed, cases, results, globals_, inconclusive, t_sta
     known_hits = {}
     harness_errors = []
     timeouts = 0
+    timeout_specs = []
     skipped = {}
     samples = []
     worst = {}
@@ -248,6 +249,7 @@ def _verdict(pid, mod, tier, seed, cases, results, globals_, inconclusive, t_sta
             continue
         if r.get("timeout"):
             timeouts += 1
+            timeout_specs.append(r.get("spec"))
             continue
         if r.get("skipped"):
             skipped[r["skipped"]] = skipped.get(r["skipped"], 0) + 1
@@ -282,7 +284,7 @@ def _verdict(pid, mod, tier, seed, cases, results, globals_, inconclusive, t_sta
     if harness_errors:
         inconclusive.append("%d harness errors, first: %s" % (len(harness_errors), harness_errors[0].get("harness_error", "")[-500:].replace("\n", " | ")))
     if timeouts:
-        inconclusive.append("%d cases hit the per-case wall-clock watchdog" % timeouts)
+        inconclusive.append("%d cases hit the per-case wall-clock watchdog, e.g. %s" % (timeouts, dumps(timeout_specs[:6])[:900]))
     if not replay:
         floors = getattr(mod, "FLOORS", {}).get(tier, {})
         for k, floor in floors.items():
